@@ -21,8 +21,15 @@ from harness.common import Ctx, Finding, SearchResult, Stream, exc_enum, hx
 
 PROP = 'C18'
 
-BRACKETS = ['[]', '()', '{}', '<>']
-QUOTES = ['"', "'"]
+def _pairs_from_source() -> tuple[list[str], list[str]]:
+	"""bracket pairs and quote characters as the real `BlockParser._all_pair` has them today (the generators and the independent
+	scanner follow the source table; the Lean side gets the same table through translate/gen_block_pairs.py)"""
+	from rogw.tranp.view.helper.block import BlockParser
+	pairs = list(BlockParser._all_pair)
+	return [p for p in pairs if len(p) == 2 and p[0] != p[1]], [p[0] for p in pairs if len(p) == 2 and p[0] == p[1]]
+
+
+BRACKETS, QUOTES = _pairs_from_source()
 DELIMS = [',', ':', '=', ' ']
 OPEN = {b[0]: b[1] for b in BRACKETS}
 CLOSE = {b[1]: b[0] for b in BRACKETS}
@@ -193,6 +200,28 @@ def expected_split(text: str, d: str) -> list[str]:
 	return out
 
 
+MULTI_DELIMS = [', ', ': ', '&|', 'and ', '=:', ' ,', ' =']  # first character does not occur again, no bracket/quote character
+
+
+def expected_split_multi(text: str, d: str) -> list[str]:
+	"""The specification of break_separator for a delimiter that can not overlap itself: cut where the delimiter stands at top
+	level with at least one character behind it; the delimiter's characters belong to no piece."""
+	_, top = scan(text)
+	out = []
+	begin = 0
+	i = 0
+	while i < len(text):
+		if text.startswith(d, i) and top[i] and i + len(d) < len(text):
+			out.append(text[begin:i].strip(' '))
+			begin = i + len(d)
+			i += len(d)
+		else:
+			i += 1
+	if begin < len(text):
+		out.append(text[begin:].strip(' '))
+	return out
+
+
 def aligns(text: str, d: str, pieces: list[str]) -> bool:
 	"""Is there a set of top-level delimiter positions whose segments, stripped of blanks, are exactly `pieces`?
 	(= every cut is a top-level delimiter and the pieces rejoin to the text up to surrounding blanks)"""
@@ -225,6 +254,17 @@ def _bp() -> Any:
 def entry_str(e: Any) -> str:
 	kind = {'element': 'E', 'block': 'B', 'end': 'X'}[e.kind.value]
 	return f"({e.begin},{e.end},{e.depth},{kind}[{''.join(entry_str(x) for x in e.entries)}])"
+
+
+def budgeted(n: int, seconds: float, notes: list[str]) -> Any:
+	"""`range(n)` with a total wall deadline: a loop that runs out of time stops and says so (never a hang, never a silent cut)"""
+	import time
+	t0 = time.time()
+	for i in range(n):
+		if time.time() - t0 > seconds:
+			notes.append(f'stopped after {i} of {n} cases (wall deadline {seconds:.0f}s)')
+			return
+		yield i
 
 
 class _Timeout(BaseException):
@@ -422,7 +462,7 @@ def other_tokens(brackets: str) -> str:
 
 def ops_for(rng: random.Random, text: str, malformed: bool) -> list[list[str]]:
 	ops: list[list[str]] = []
-	odd_delims = ['->', '::', ', ', 'aa', '', '==', ' =']
+	odd_delims = ['->', '::', ', ', 'aa', '', '==', ' =', ': ', ' and ', '&|']
 	odd_brackets = ['', '(', '""', '(]', 'ab', "''", '<', '][']  # never longer than two characters: a third character is an end token that _parse cannot consume (no progress)
 	for d in DELIMS:
 		ops.append(['sep', text, d])
@@ -510,7 +550,8 @@ def param_text(rng: random.Random, i: int) -> tuple[str, str, str, str | None]:
 def stream_fragments(ctx: Ctx, name: str, mode: str, n: int) -> Stream:
 	rng = ctx.sub_rng(name)
 	cases = []
-	for i in range(n):
+	notes: list[str] = []
+	for i in budgeted(n, ctx.scale(60, 900), notes):
 		if mode == 'malformed':
 			text = gen_malformed(rng, i)
 			meta = {'depth': -1, 'len': len(text)}
@@ -537,6 +578,7 @@ def stream_fragments(ctx: Ctx, name: str, mode: str, n: int) -> Stream:
 	errs = sum(1 for _, _, real in cases for r in real if not r.startswith(('ok', 'block', 'element', 'end')) and not r.isdigit())
 	st.note = (f'{mode} fragments; per fragment: sep × 5 delimiters (one multi-character/empty), last × 4-5 bracket pairs, skip × 3, analyze × 3, '
 		f'parse/bracket/pair × 2, deco, param (+ decorator/parameter/prefix+group texts); {errs} ops ended in an exception on both sides')
+	st.note += ''.join(f'; {x}' for x in notes)
 	return st
 
 
@@ -583,7 +625,8 @@ def caller_ops(rng: random.Random, mode: str, i: int) -> list[list[str]]:
 def stream_callers(ctx: Ctx, n: int) -> Stream:
 	rng = ctx.sub_rng('block-callers')
 	cases = []
-	for i in range(n):
+	notes: list[str] = []
+	for i in budgeted(n, ctx.scale(60, 900), notes):
 		mode = ('clean', 'dirty', 'malformed')[i % 3]
 		if mode == 'malformed':
 			text = gen_malformed(rng, i)
@@ -598,13 +641,15 @@ def stream_callers(ctx: Ctx, n: int) -> Stream:
 	st.note = ('the production call sites: PatternParser.pluck_func_call_arguments / break_indexer / pluck_cvar_new directly; Py2Cpp.on_throw, on_dict_comp, '
 		'is_initializer_call as the real (unbound) methods with a recording `render`; DecoratorHelper.any / any_args and DecoratorQuery.any / any_args / contains; '
 		'`callsplit` = break_separator(pluck_func_call_arguments(·)) composed in the harness (the former proc_for_range splitting, retired as a production site by /repo ed1a7d7)')
+	st.note += ''.join(f'; {x}' for x in notes)
 	return st
 
 
 def stream_dictlike(ctx: Ctx, n: int) -> Stream:
 	rng = ctx.sub_rng('block-dictlike')
 	cases = []
-	for i in range(n):
+	notes: list[str] = []
+	for i in budgeted(n, ctx.scale(60, 900), notes):
 		b = rng.choice(BRACKETS)
 		delims = rng.choice([':', ',', ':,'])
 		mode = 'clean' if i % 3 else 'dirty'
@@ -623,6 +668,7 @@ def stream_dictlike(ctx: Ctx, n: int) -> Stream:
 	st = common.correspond('block-dictlike', cases, 'block', classify=lambda d: f"{d['kind']} pairs={min(d['pairs'], 5)}{' loose' if d['loose'] else ''}")
 	st.note = ('dict-like fragments `{k: v, …}` / `name(a, b)` with foreign groups directly behind each other (`f(1)[2, 3]`, `t[A](x, y)`), nested dicts, '
 		'strings; parse_pair / parse (with and without delimiter) / parse_bracket / _analyze_entry at random positions, also with another bracket kind')
+	st.note += ''.join(f'; {x}' for x in notes)
 	return st
 
 
@@ -635,7 +681,8 @@ def search_callers(ctx: Ctx) -> SearchResult:
 	def bad(key: str, what: str, replay: dict[str, Any]) -> None:
 		res.findings.append(Finding(key=key, what=what, replay=replay))
 
-	for i in range(ctx.scale(6000, 60000)):
+	notes: list[str] = []
+	for i in budgeted(ctx.scale(6000, 60000), ctx.scale(45, 600), notes):
 		mode = 'clean' if i % 3 else 'dirty'
 		callee = rng.choice(['range', 'f', 'a.b', 'ns::g', 'x->y', 'E'])
 		n = 1 + i % 3
@@ -692,6 +739,7 @@ def search_callers(ctx: Ctx) -> SearchResult:
 			bad('caller:indexer', f'break_indexer({recv + "[" + key + "]"!r}) = {got!r}, expected {(recv, key)!r}', {'text': f'{recv}[{key}]'})
 		if i < 2:
 			res.samples.append({'call': call, 'args': args})
+	res.note = '; '.join(notes)
 	res.distinct = len(seen)
 	res.histogram = hist
 	return res
@@ -724,8 +772,8 @@ def search_sep(ctx: Ctx) -> SearchResult:
 	res = SearchResult('break_separator laws on the real helper: exact top-level split, cuts only at top-level delimiters / rejoin up to blanks / balanced pieces, on fragments with clean and with arbitrary simple strings (independent scanner)')
 	hist: dict[str, int] = {}
 	seen: set[str] = set()
-	n = ctx.scale(20000, 150000)
-	for i in range(n):
+	notes: list[str] = []
+	for i in budgeted(ctx.scale(20000, 150000), ctx.scale(45, 600), notes):
 		mode = 'clean' if i % 3 else 'dirty'
 		items = gen_fragment(rng, mode, i)
 		text = render(items)
@@ -749,8 +797,26 @@ def search_sep(ctx: Ctx) -> SearchResult:
 				res.findings.append(Finding(key=bad[0], what=bad[1], replay={'text': text, 'delimiter': d, 'pieces': pieces}))
 			k = ('dirty' if dirty else 'clean') + f' pieces={min(len(pieces), 5)}{"+" if len(pieces) > 5 else ""}'
 			hist[k] = hist.get(k, 0) + 1
+		for d in rng.sample(MULTI_DELIMS, 2):
+			# make the delimiter occur: replace some top-level commas by it
+			t2 = text
+			if ',' in text and rng.random() < 0.7:
+				_, top0 = scan(text)
+				t2 = ''.join((d if c == ',' and top0[j] and rng.random() < 0.7 else c) for j, c in enumerate(text))
+			res.cases += 1
+			seen.add(f'{d}{t2}')
+			try:
+				pieces = guarded(B.break_separator, t2, d)
+			except Exception as e:  # noqa: BLE001
+				res.findings.append(Finding(key='sep:exception', what=f'break_separator raises {exc_enum(e)} on a balanced fragment', replay={'text': t2, 'delimiter': d}))
+				continue
+			want_m = expected_split_multi(t2, d)
+			hist['multi-character delimiter'] = hist.get('multi-character delimiter', 0) + 1
+			if pieces != want_m:
+				res.findings.append(Finding(key='sep:multichar-split-differs', what=f'break_separator({t2!r}, {d!r}) = {pieces!r}, top-level split is {want_m!r}', replay={'text': t2, 'delimiter': d, 'pieces': pieces}))
 		if i < 2:
 			res.samples.append({'text': text, 'pieces,': real_op(['sep', text, ','])})
+	res.note = '; '.join(notes)
 	res.distinct = len(seen)
 	res.histogram = hist
 	return res
@@ -762,7 +828,8 @@ def search_last(ctx: Ctx) -> SearchResult:
 	res = SearchResult('break_last_block(prefix + group) = (prefix, inside) on the real helper; no group of the kind → IndexError')
 	hist: dict[str, int] = {}
 	seen: set[str] = set()
-	for i in range(ctx.scale(25000, 200000)):
+	notes: list[str] = []
+	for i in budgeted(ctx.scale(25000, 200000), ctx.scale(45, 600), notes):
 		b = BRACKETS[i % 4]
 		mode = 'clean' if (i // 4) % 2 else 'dirty'
 		# strings may contain brackets of the other kinds and any quotes, not the kind that is extracted
@@ -792,6 +859,7 @@ def search_last(ctx: Ctx) -> SearchResult:
 			res.findings.append(Finding(key='last:no-group', what=f'break_last_block({plain!r}, {b!r}) = {got2!r} without any group of that kind', replay={'text': plain, 'brackets': b}))
 		if i < 2:
 			res.samples.append({'text': text, 'brackets': b, 'result': got})
+	res.note = '; '.join(notes)
 	res.distinct = len(seen)
 	res.histogram = hist
 	return res
@@ -825,7 +893,8 @@ def search_last_general(ctx: Ctx) -> SearchResult:
 			got = exc_enum(e)
 		if got != want:
 			res.findings.append(Finding(key='last:general-position', what=f'break_last_block({text!r}, {b!r}) = {got!r}, expected {want!r}', replay={'text': text, 'brackets': b, 'witness': True}))
-	for i in range(ctx.scale(15000, 150000)):
+	notes: list[str] = []
+	for i in budgeted(ctx.scale(15000, 150000), ctx.scale(45, 600), notes):
 		b = BRACKETS[i % 4]
 		mode = 'clean' if (i // 4) % 2 else 'dirty'
 		items = gen_fragment(rng, mode, i, exclude=b)
@@ -853,6 +922,7 @@ def search_last_general(ctx: Ctx) -> SearchResult:
 			res.findings.append(Finding(key='last:reassemble', what=f'break_last_block({text!r}, {b!r}) = {got!r} does not reassemble to a prefix of the text', replay={'text': text, 'brackets': b}))
 		elif len(res.samples) < 2 and len(groups) > 1:
 			res.samples.append({'text': text, 'brackets': b, 'result': got})
+	res.note = '; '.join(notes)
 	res.distinct = len(seen)
 	res.histogram = hist
 	return res
@@ -917,7 +987,8 @@ def search_decorator(ctx: Ctx) -> SearchResult:
 		bad = check_decorator(text, path, args)
 		if bad:
 			res.findings.append(Finding(key=bad[0], what=bad[1], replay={'decorator': text, 'witness': True}))
-	for i in range(ctx.scale(25000, 200000)):
+	notes: list[str] = []
+	for i in budgeted(ctx.scale(25000, 200000), ctx.scale(45, 600), notes):
 		mode = 'clean' if i % 3 else 'dirty'
 		text, path, args = deco_text(rng, mode, i)
 		res.cases += 1
@@ -929,6 +1000,7 @@ def search_decorator(ctx: Ctx) -> SearchResult:
 			res.findings.append(Finding(key=bad[0], what=bad[1], replay={'decorator': text}))
 		elif len(res.samples) < 2 and len(args) > 1:
 			res.samples.append({'decorator': text, 'path': path, 'args': args})
+	res.note = '; '.join(notes)
 	res.distinct = len(seen)
 	res.histogram = hist
 	return res
@@ -940,7 +1012,8 @@ def search_query(ctx: Ctx) -> SearchResult:
 	res = SearchResult('DecoratorHelper.any / any_args / match / match_args and DecoratorQuery.any / any_args / contains / match / match_args against the generated paths and argument texts (CPython re as oracle for the two regex methods)')
 	hist: dict[str, int] = {}
 	seen: set[str] = set()
-	for i in range(ctx.scale(4000, 40000)):
+	notes: list[str] = []
+	for i in budgeted(ctx.scale(4000, 40000), ctx.scale(45, 600), notes):
 		mode = 'clean' if i % 3 else 'dirty'
 		gen = [deco_text(rng, mode, i + j) for j in range(rng.randint(1, 5))]
 		if rng.random() < 0.3:
@@ -980,6 +1053,7 @@ def search_query(ctx: Ctx) -> SearchResult:
 			res.findings.append(Finding(key='query:any-contains', what=f'DecoratorQuery({decos!r}): any/contains/any_args({probes!r}, {subject!r}) = {got!r}, expected {want!r}', replay={'decorators': decos, 'paths': probes, 'subject': subject}))
 		elif len(res.samples) < 2:
 			res.samples.append({'decorators': decos, 'paths': probes, 'any': want[0]})
+	res.note = '; '.join(notes)
 	res.distinct = len(seen)
 	res.histogram = hist
 	return res
@@ -1011,7 +1085,8 @@ def search_param(ctx: Ctx) -> SearchResult:
 	bad = check_param('bool b = x == y', 'bool', 'b', 'x == y')
 	if bad:
 		res.findings.append(Finding(key=bad[0], what=bad[1], replay={'parameter': 'bool b = x == y', 'witness': True}))
-	for i in range(ctx.scale(25000, 200000)):
+	notes: list[str] = []
+	for i in budgeted(ctx.scale(25000, 200000), ctx.scale(45, 600), notes):
 		text, var_type, symbol, default = param_text(rng, i)
 		res.cases += 1
 		seen.add(text)
@@ -1022,6 +1097,7 @@ def search_param(ctx: Ctx) -> SearchResult:
 			res.findings.append(Finding(key=bad[0], what=bad[1], replay={'parameter': text}))
 		elif len(res.samples) < 2 and default:
 			res.samples.append({'parameter': text, 'parts': [var_type, symbol, default]})
+	res.note = '; '.join(notes)
 	res.distinct = len(seen)
 	res.histogram = hist
 	return res
@@ -1070,7 +1146,8 @@ def search_bracket(ctx: Ctx) -> SearchResult:
 		bad = check_bracket(text, b, want)
 		if bad:
 			res.findings.append(Finding(key=bad[0], what=bad[1], replay={'text': text, 'brackets': b, 'witness': True}))
-	for i in range(ctx.scale(12000, 120000)):
+	notes: list[str] = []
+	for i in budgeted(ctx.scale(12000, 120000), ctx.scale(45, 600), notes):
 		b = rng.choice(BRACKETS)
 		mode = 'clean' if i % 3 else 'dirty'
 		inner = gen_fragment(rng, mode, i)
@@ -1087,6 +1164,7 @@ def search_bracket(ctx: Ctx) -> SearchResult:
 			res.findings.append(Finding(key=bad[0], what=bad[1], replay={'text': text, 'brackets': b}))
 		elif len(res.samples) < 2 and len(want) > 2:
 			res.samples.append({'text': text, 'blocks': want})
+	res.note = '; '.join(notes)
 	res.distinct = len(seen)
 	res.histogram = hist
 	return res
@@ -1151,7 +1229,8 @@ def search_pair(ctx: Ctx) -> SearchResult:
 			got = exc_enum(e)
 		if got != want:
 			res.findings.append(Finding(key='parse_pair:pairs-differ', what=f'parse_pair({text!r}, {b!r}, {d!r}) = {got!r}, expected {want!r}', replay={'text': text, 'brackets': b, 'delimiter': d, 'witness': True}))
-	for i in range(ctx.scale(8000, 80000)):
+	notes: list[str] = []
+	for i in budgeted(ctx.scale(8000, 80000), ctx.scale(45, 600), notes):
 		b = rng.choice(BRACKETS)
 		delims = rng.choice([':', ',', ':,'])
 		mode = 'clean' if i % 3 else 'dirty'
@@ -1171,6 +1250,7 @@ def search_pair(ctx: Ctx) -> SearchResult:
 			res.findings.append(Finding(key='parse_pair:pairs-differ', what=f'parse_pair({text!r}, {b!r}, {delims!r}) = {got!r}, expected {want!r}', replay={'text': text, 'brackets': b, 'delimiter': delims}))
 		elif len(res.samples) < 2 and len(want) > 1:
 			res.samples.append({'text': text, 'pairs': want})
+	res.note = '; '.join(notes)
 	res.distinct = len(seen)
 	res.histogram = hist
 	return res
@@ -1202,7 +1282,8 @@ def search_skip(ctx: Ctx) -> SearchResult:
 	hist: dict[str, int] = {}
 	seen: set[str] = set()
 	toks = all_tokens()
-	for i in range(ctx.scale(15000, 120000)):
+	notes: list[str] = []
+	for i in budgeted(ctx.scale(15000, 120000), ctx.scale(45, 600), notes):
 		text = render(gen_fragment(rng, 'clean', i))
 		m = matching(text)
 		seen.add(text)
@@ -1218,6 +1299,7 @@ def search_skip(ctx: Ctx) -> SearchResult:
 				res.findings.append(Finding(key='skip:partner', what=f'_skip_other_block({text!r}, all, {o}) = {got!r}, the partner of {text[o]!r} is at {c}', replay={'text': text, 'begin': o}))
 		if i < 2:
 			res.samples.append({'text': text, 'pairs': sorted(m.items())[:6]})
+	res.note = '; '.join(notes)
 	res.distinct = len(seen)
 	res.histogram = hist
 	return res
@@ -1227,6 +1309,7 @@ def search_skip(ctx: Ctx) -> SearchResult:
 
 
 STATEMENTS: dict[str, str] = {
+	'skip_string_in_group': 'a string nested inside a group (any content: brackets of every kind, the group\'s own closer, the other quote) never ends the skip early or late - instance of skip_group, the shape of seed C18-9',
 	'skip_group / skip_string': '_skip_other_block started on the opening bracket (quote) of a group (simple string) returns the position right behind the matching closer, for every nesting depth, every string content and every surrounding text',
 	'sep_spec (= sep_spec_dirty)': 'break_separator(render f, d) = the top-level pieces of f (cut at every top-level d except one in the very last position, nowhere else; each piece stripped of blanks; empty first piece kept; empty text gives []), for every fragment f with simple strings (brackets/other quote inside allowed) and every delimiter character d',
 	'sep_only_top': 'f = f1 d f2 d ... fn at top level with balanced fi and the result is [strip(render fi)]: every cut is a top-level delimiter',
@@ -1252,6 +1335,7 @@ STATEMENTS: dict[str, str] = {
 	'caller_pluck / caller_throw / caller_dict_comp / caller_initializer_call': 'PatternParser.pluck_func_call_arguments, Py2Cpp.on_throw (calls, arguments), on_dict_comp (key, value) return exactly the generated argument texts and is_initializer_call(T(args), T) is true, for arbitrary bracket-balanced arguments (strings may hold any bracket but parentheses for the break_last_block based ones)',
 	'retired_range_split / retired_range_lt_hazard': 'NOT a production site since /repo ed1a7d7 (proc_for_range transpiles the argument nodes): break_separator(pluck_func_call_arguments(callee(a, b)), ",") gives the argument texts for bracket-balanced arguments; a lone "<" in an argument (range(a << 1, n)) is not balanced, swallows the comma and the unpacking raises ValueError - the hazard the fix removed',
 	'query_any': 'DecoratorQuery.any(*paths) = the decorators whose text before the first "(" is in paths, in order; contains(*paths) = whether there is one',
+	'sep_multichar_spec / sep_multichar_rejoin / callsites_delim_guard': 'for a multi-character delimiter that can not overlap itself (first character does not recur, no bracket/quote character: ", ", ": ", " ="; not " = " or "::"): the exact pieces for every fragment and the rejoin law d.join(segments) = text, pieces = stripped segments; every delimiter literal of the generated call-site table satisfies the guard (decide)',
 	'sep_multichar_rejoin_counterexample': 'for a multi-character delimiter the rejoin law is false when occurrences overlap: break_separator("a:::b", "::") = ["a", "", "b"]',
 }
 
@@ -1304,7 +1388,7 @@ def run(ctx: Ctx) -> int:
 		partial={
 			'proved (all fragments, unbounded nesting, induction on Frag)': 'splitting = exact top-level split (hence cuts only at top-level delimiters, rejoin up to blanks, balanced pieces) for fragments with arbitrary simple strings; last bracket group of prefix+group (strings may contain the other bracket kinds and quotes); error branch; skip; decorator path/join_args/pieces and the key/value of positional and labelled pieces; parameter type/name/default for every default fragment; parse_bracket = the groups two levels deep in pre-order; the production callers (throw / dict-comprehension / pluck / indexer / is_initializer_call; the former range splitting only as a statement about the helpers); DecoratorQuery.any / contains; termination of _parse/_parse_block/_analyze_entry on every text',
 			'formerly false, proved after the repairs 3111a97 d6d867d eb33d21 f350973': 'param_unrestricted, decorator_positional, sep_spec_dirty, bracket_first/bracket_spec; the old witnesses are replayed from corpus/C18 and by the searches and must pass',
-			'correspondence + search only': 'the parse_pair law ((key, value) texts per depth on dict-like fragments with blank-free pieces, incl. directly adjacent foreign groups: structure-side oracle + stream block-dictlike; parse_pair has no caller); DecoratorHelper.match / match_args (regular expressions with caller-supplied patterns: no shipped pattern and no call site exists - the generated call-site scan finds none - so they are checked by search against CPython re only); multi-character delimiters without overlap (positive law not proved), empty delimiter, brackets arguments of other lengths, unbalanced text (correspondence)',
+			'correspondence + search only': 'the parse_pair law ((key, value) texts per depth on dict-like fragments with blank-free pieces, incl. directly adjacent foreign groups: structure-side oracle + stream block-dictlike; parse_pair has no caller); DecoratorHelper.match / match_args (regular expressions with caller-supplied patterns: no shipped pattern and no call site exists - the generated call-site scan finds none - so they are checked by search against CPython re only); multi-character delimiters that contain a bracket character or overlap themselves ("->", "::": correspondence only; the overlap counterexample is a theorem), empty delimiter, brackets arguments of other lengths, unbalanced text (correspondence)',
 		},
 		assumptions=[
 			'fragments are rendered with the ASCII bracket/quote characters of BlockParser._all_pair (generated table; the proofs are redone when it changes)',
